@@ -10,6 +10,15 @@ open Ckl Ckl.C05 Ckl.C03
 variable {e : EnvId} {X : String → Prop} {s0 : State}
 
 
+theorem KTr.dateResM (r : DateRes) (pos : Pos) : KTr e X s0 (dateResM r pos) := by
+  unfold Ckl.dateResM; k_auto
+macro_rules | `(tactic| k_lemma) => `(tactic| exact KTr.dateResM _ _)
+
+theorem KTr.callDate (name : String) (args : List (String × RVal)) (pos : Pos) (m : EvalM RVal)
+    (h : callDate name args pos = some m) : KTr e X s0 m := by
+  unfold Ckl.callDate at h
+  split at h <;> first | (injection h with h; subst h; exact KTr.dateResM _ _) | (cases h)
+
 theorem KTr.nativeAdd (a b : RVal) (pos : Pos) : KTr e X s0 (nativeAdd a b pos) := by
   unfold Ckl.nativeAdd; k_auto
 macro_rules | `(tactic| k_lemma) => `(tactic| exact KTr.nativeAdd _ _ _)
@@ -148,7 +157,7 @@ theorem KTr.callPure (name : String) (args : List (String × RVal)) (d : Option 
     (m : EvalM RVal) (h : callPure name args d pos = some m) : KTr e X s0 m := by
   unfold Ckl.callPure at h
   split at h
-  all_goals (cases h)
+  all_goals first | (cases h) | (exact KTr.callDate _ _ _ _ h)
   all_goals first
     | (k_auto; done)
     | (refine KTr.of_at (fun s hs => ?_); k_at_auto)
